@@ -122,8 +122,30 @@ func RenderEv(c *TrieCase, st *trie.SlimTrie) Ev {
 	}()
 	lines := []interface{}{}
 	bad := 0
+	// Layer P reads only what the property talks about, tolerant of the line format:
+	// the node id of every line (#<digits>) and the value of every leaf line (=<value>)
+	ids := []int{}
+	leafvals := [][]int{}
+	noid := 0
 	if pan == "" && text != "" {
 		for _, ln := range strings.Split(text, "\n") {
+			if i := strings.Index(ln, "#"); i >= 0 {
+				j := i + 1
+				for j < len(ln) && ln[j] >= '0' && ln[j] <= '9' {
+					j++
+				}
+				if id, err := strconv.Atoi(ln[i+1 : j]); err == nil {
+					ids = append(ids, id)
+				} else {
+					noid++
+				}
+				if k := strings.Index(ln[j:], "="); k >= 0 {
+					leafvals = append(leafvals, parseValue(c.Enc, ln[j+k+1:]))
+				}
+			} else {
+				noid++
+			}
+			// Layer M: the full grammar of a line
 			tok, ok := parseLine(c.Enc, ln)
 			if !ok {
 				bad++
@@ -141,7 +163,8 @@ func RenderEv(c *TrieCase, st *trie.SlimTrie) Ev {
 		}
 	}
 	h := sha1.Sum([]byte(text))
-	return Ev{"ev": "render", "pan": pan, "lines": lines, "bad": bad, "dn": dn, "text": hex.EncodeToString(h[:8])}
+	return Ev{"ev": "render", "pan": pan, "lines": lines, "bad": bad, "dn": dn, "text": hex.EncodeToString(h[:8]),
+		"ids": ids, "leafvals": leafvals, "noid": noid}
 }
 
 func runRenderCase(t *Tracer, m *Meta, c *TrieCase) {
